@@ -20,7 +20,7 @@ class CallMixin(object):
         if isinstance(f, ast.Name) and self.lookup(f.id, st) is None:
             name = f.id
             sf = getattr(self, "sf_" + name, None)
-            if sf is not None and (self.in_spec or name in ("old",)):
+            if sf is not None and (self.in_spec or self.ghost_depth > 0 or name in ("old",)):
                 return [(st, sf(e, st))]
             if name in self.reg.specfuns and self.in_spec:
                 return [(st, self.call_specfun(name, e, st))]
@@ -216,6 +216,11 @@ class CallMixin(object):
         post.heap, post.glob, post.old = ns.heap, ns.glob, pre
         post.pc = ns.pc
         self._rebind_inout(c, ns, post, bound, node)
+        for gname, (gty, _init) in list(c.ghosts.items()) + list(c.ghost_final.items()):
+            gv = fresh(gty, gname)
+            ns.assume(*wf(gv))
+            post.env[gname] = gv
+            ns.env["%s_%s" % (c.qualname.split(".")[-1], gname)] = gv      # visible to the caller's invariants
         for text in c.ensures:
             ns.assume(self.spec_bool(text, post))
         if not self.feasible(ns):
@@ -264,7 +269,7 @@ class CallMixin(object):
                             argnode = k.value
             if argnode is None:
                 raise OutsideSubset("in/out parameter %s of %s: argument is not a place" % (m, c.qualname))
-            sts = self.assign(_as_store(argnode), nv, st, None)
+            sts = self.assign(_as_store(argnode), nv, st, None, inplace=True)
             assert len(sts) == 1
             st.env, st.heap, st.glob, st.alias = sts[0].env, sts[0].heap, sts[0].glob, sts[0].alias
             st.pc[:] = sts[0].pc
@@ -381,7 +386,7 @@ class CallMixin(object):
         for o in outs:
             if len(o) == 3:
                 st1, r, newrecv = o
-                sts = self.assign(_as_store(recv_node), newrecv, st1, None)
+                sts = self.assign(_as_store(recv_node), newrecv, st1, None, inplace=True)
                 for s2 in sts:
                     self._alias_writeback(recv_node, newrecv, s2)
                     res.append((s2, r))
@@ -390,12 +395,8 @@ class CallMixin(object):
         return res
 
     def _alias_writeback(self, recv_node, newv, st):
-        if isinstance(recv_node, ast.Name) and recv_node.id in st.alias:
-            kind, text = st.alias[recv_node.id]
-            tgt = ast.parse(text, mode="eval").body
-            sts = self.assign(_as_store(tgt), newv, st, None)
-            st.env, st.heap, st.glob = sts[0].env, sts[0].heap, sts[0].glob
-            st.alias[recv_node.id] = (kind, text)
+        if isinstance(recv_node, ast.Name):
+            return          # handled by assign(inplace=True)
         else:
             # mutation through a place that some variable aliases: refresh the variable
             pl = self.place_of(recv_node, st)
@@ -452,7 +453,8 @@ class CallMixin(object):
         r = fresh(lst.ty, "rev")
         n = core.llen(lst)
         st.assume(core.llen(r) == n,
-                  core.forall_int(0, n, lambda j: z3.Select(core.larr(r), j) == z3.Select(core.larr(lst), n - 1 - j)))
+                  core.forall_int(0, n, lambda j: z3.Select(core.larr(r), j) == z3.Select(core.larr(lst), n - 1 - j)),
+                  core.forall_int(0, n, lambda j: z3.Select(core.larr(lst), j) == z3.Select(core.larr(r), n - 1 - j)))
         return r
 
     def m_list_pop(self, recv, args, kw, st, node):
@@ -603,6 +605,39 @@ class CallMixin(object):
     def m_map_copy(self, recv, args, kw, st, node):
         return [(st, recv)]
 
+    def m_map_items(self, recv, args, kw, st, node):
+        st = st.copy()
+        ty = List(Tup(recv.ty.k, recv.ty.v))
+        r = fresh(ty, "items")
+        S = CTX.sort(ty.elem)
+        n = core.llen(r)
+        f0 = lambda j: S.accessor(0, 0)(z3.Select(core.larr(r), j))
+        f1 = lambda j: S.accessor(0, 1)(z3.Select(core.larr(r), j))
+        pf = CTX.func(CTX.fresh("ipos"), CTX.sort(recv.ty.k), z3.IntSort())
+        dom = core.mdom(recv)
+        st.assume(n >= 0)
+        if CTX.scope is not None:
+            CTX.scope_constraints.append(n <= CTX.scope)
+        st.assume(core.forall_int(0, n, lambda j: z3.And(core.smem_t(dom, f0(j)), pf(f0(j)) == j,
+                                                         f1(j) == z3.Select(core.mval(recv), f0(j)))),
+                  core.forall_ty(recv.ty.k, lambda k: z3.Implies(core.smem_t(dom, k), z3.And(pf(k) >= 0, pf(k) < n, f0(pf(k)) == k))))
+        return [(st, r)]
+
+    def m_map_values(self, recv, args, kw, st, node):
+        st = st.copy()
+        keys = self.enumerate_set(core.mdom(recv), st)
+        r = fresh(List(recv.ty.v), "values")
+        n = core.llen(keys)
+        st.assume(core.llen(r) == n,
+                  core.forall_int(0, n, lambda j: z3.Select(core.larr(r), j) == z3.Select(core.mval(recv), z3.Select(core.larr(keys), j))))
+        return [(st, r)]
+
+    def m_edict_items(self, recv, args, kw, st, node):
+        return [(st, V(STATIC, None, []))]
+
+    m_edict_values = m_edict_items
+    m_edict_keys = m_edict_items
+
     def m_map_update(self, recv, args, kw, st, node):
         o = args[0]
         if o.ty in (EMPTY_DICT,):
@@ -611,8 +646,7 @@ class CallMixin(object):
             raise OutsideSubset("dict.update with %r" % (o.ty,))
         st = st.copy()
         r = fresh(recv.ty, "upd")
-        st.assume(core.mdom(r).t == core.sunion(core.mdom(recv), core.mdom(o)).t if CTX.scope is None else
-                  core.set_eq(core.mdom(r), core.sunion(core.mdom(recv), core.mdom(o))),
+        st.assume(core.set_eq(core.mdom(r), core.sunion(core.mdom(recv), core.mdom(o))),
                   core.forall_ty(recv.ty.k, lambda k: z3.Select(core.mval(r), k) ==
                                  z3.If(core.smem_t(core.mdom(o), k), z3.Select(core.mval(o), k), z3.Select(core.mval(recv), k))))
         return [(st, NONEV, r)]
